@@ -28,7 +28,7 @@ def _outer_states(c, outer, ie0):
 # Every gadget-layer contract (C01-C07) is proved per flag/guard MODE; the modes are exactly the states these three
 # functions establish and restore (errors off while ANY enclosing guard is false, LinComb.ONE = the current guard,
 # state restored on every exit).  Their clauses are therefore obligations of each of those properties, not of C08 only.
-MODE_STATE_PROPS = ("C01", "C02", "C03", "C04", "C05", "C06", "C07", "C08")
+MODE_STATE_PROPS = ("C01", "C02", "C03", "C04", "C05", "C06", "C07", "C08", "C09")     # C09: nested oblivious blocks ARE nested guards
 
 
 @register
